@@ -429,6 +429,179 @@ func c19EditedDocuments(c *h.Ctx) {
 	}
 }
 
+// c19HugeArrays: arrays of tens of thousands of elements with two elements
+// far apart on which the step after [*] fails, each with an error text of its
+// own: the same call returns the same error whenever and next to whatever it
+// is made.
+func c19HugeArrays(c *h.Ctx) {
+	const n = 40000
+	h.NoSharedAtomics = true
+	defer func() { h.NoSharedAtomics = false }()
+	k := 0
+	for _, at := range [][2]int{{2500, 32500}, {100, 35100}, {4990, 30000}, {12000, 22000}, {19990, 20010}} {
+		for _, pt := range []string{`$[*].double()`, `strict $[*].a`, `$[*] ? (@.type() != "null").double()`, `$[*].double().abs()`} {
+			k++
+			if !c.Mine(k) {
+				continue
+			}
+			arr := make([]any, n)
+			for i := range arr {
+				arr[i] = float64(i % 97)
+			}
+			arr[at[0]], arr[at[1]] = "first", "second"
+			if strings.Contains(pt, ".a") {
+				for i := range arr {
+					arr[i] = map[string]any{"a": float64(i % 97)}
+				}
+				arr[at[0]], arr[at[1]] = map[string]any{"b": 1.0}, map[string]any{"c": 2.0}
+			}
+			p := path.MustParse(pt)
+			call := func(e string) string {
+				switch e {
+				case "first":
+					v, err := p.First(context.Background(), arr)
+					if err != nil {
+						return "error: " + err.Error()
+					}
+					return "first: " + h.Canon(v)
+				}
+				items, err := p.Query(context.Background(), arr)
+				if err != nil {
+					return "error: " + err.Error()
+				}
+				return fmt.Sprintf("query: %d items", len(items))
+			}
+			// (what First returns is compared with what First returns)
+			seen, seenFirst := map[string]int{}, map[string]int{}
+			for r := 0; r < 7; r++ {
+				seen[call("query")]++
+				seenFirst[call("first")]++
+				c.Eval(2)
+			}
+			var mu sync.Mutex
+			var wg sync.WaitGroup
+			for g := 0; g < 6; g++ {
+				wg.Add(1)
+				go func(g int) {
+					defer wg.Done()
+					for r := 0; r < 3; r++ {
+						e := []string{"query", "first", "query"}[(g+r)%3]
+						got := call(e)
+						mu.Lock()
+						if e == "first" {
+							seenFirst[got]++
+						} else {
+							seen[got]++
+						}
+						mu.Unlock()
+						runtime.Gosched()
+					}
+				}(g)
+			}
+			wg.Wait()
+			c.Eval(18)
+			if len(seen) > 1 || len(seenFirst) > 1 {
+				var all []string
+				for s, cnt := range seen {
+					all = append(all, fmt.Sprintf("%dx %s", cnt, s))
+				}
+				for s, cnt := range seenFirst {
+					all = append(all, fmt.Sprintf("%dx %s", cnt, s))
+				}
+				sort.Strings(all)
+				c.Violate("repeat-differs", h.F("kind", "huge-array"), fmt.Sprintf("%s on an array of %d elements, of which elements %d and %d make the step after [*] fail: Query and First, each called 7 times alone and from 6 goroutines at once, returned %s", pt, n, at[0], at[1], strings.Join(all, "; ")), h.Case{Kind: "huge-array", Path: pt})
+			} else {
+				c.Held("repeat-differs")
+			}
+		}
+	}
+}
+
+// c19Rescanned: a Path value is one word around the parsed expression, and
+// copies of it (by assignment, or path.New on its AST) share that expression.
+// Reading another text into one holder (Scan, UnmarshalText, UnmarshalBinary)
+// gives that holder a new expression; every other holder keeps answering as
+// before - also while the reading goes on in another goroutine.
+func c19Rescanned(c *h.Ctx) {
+	h.NoSharedAtomics = true
+	defer func() { h.NoSharedAtomics = false }()
+	doc := h.Decode(`{"a":[1,2,{"b":"x"}],"b":["x","y"],"c":{"a":5}}`, false)
+	others := []string{`strict $.b[*]`, `$.c`, `$.a[*] ? (@ > 1)`, `strict $.c.a + 1`}
+	for pi, pt := range c19Pool {
+		if !c.Mine(pi) {
+			continue
+		}
+		p, err := path.Parse(pt)
+		if err != nil {
+			continue
+		}
+		fp := func(q *path.Path) string {
+			items, err := q.Query(context.Background(), doc)
+			if err != nil {
+				return q.String() + " -> error: " + err.Error()
+			}
+			return q.String() + " -> " + h.CanonBag(items)
+		}
+		want := fp(p)
+		bad := ""
+		for k, other := range others {
+			holder := *p // a copy by assignment
+			if k%2 == 1 {
+				holder = *path.New(p.AST)
+			}
+			stop := make(chan struct{})
+			var wg sync.WaitGroup
+			var during string
+			wg.Add(1)
+			go func() {
+				defer wg.Done()
+				for {
+					select {
+					case <-stop:
+						return
+					default:
+					}
+					if got := fp(p); got != want && during == "" {
+						during = got
+					}
+					runtime.Gosched()
+				}
+			}()
+			var rerr error
+			switch k % 3 {
+			case 0:
+				rerr = holder.UnmarshalText([]byte(other))
+			case 1:
+				rerr = holder.Scan(other)
+			default:
+				rerr = holder.UnmarshalBinary([]byte(other))
+			}
+			runtime.Gosched()
+			close(stop)
+			wg.Wait()
+			c.Eval(2)
+			switch {
+			case rerr != nil:
+				continue
+			case during != "":
+				bad = fmt.Sprintf("while %q was read into a copy of the Path value, the original answered %s (before: %s)", other, during, want)
+			case fp(p) != want:
+				bad = fmt.Sprintf("after %q was read into a copy of the Path value, the original answers %s (before: %s)", other, fp(p), want)
+			case holder.String() == p.String() && p.String() != path.MustParse(other).String():
+				bad = fmt.Sprintf("reading %q into a copy of the Path value left the copy at %s", other, holder.String())
+			}
+			if bad != "" {
+				break
+			}
+		}
+		if bad != "" {
+			c.Violate("repeat-differs", h.F("kind", "another-holder-rescanned"), fmt.Sprintf("%s: %s", pt, bad), h.Case{Kind: "rescanned", Path: pt})
+		} else {
+			c.Held("repeat-differs")
+		}
+	}
+}
+
 func deepCopyJSON(v any) any {
 	b, err := json.Marshal(v)
 	if err != nil {
@@ -880,6 +1053,8 @@ func runC19(c *h.Ctx) {
 	c19RejectedParses(c, cf.n)
 	c19EditedDocuments(c)
 	c19CancelledFromOutside(c)
+	c19HugeArrays(c)
+	c19Rescanned(c)
 	c.Count("overlap.operation-pairs", overlapPairs)
 	c.Count("overlap.same-path-pairs", overlapSamePath)
 	c.Count("max:goroutines", int64(cf.n))
